@@ -187,10 +187,13 @@ C11V(r) ==
         \A k \in DOMAIN r.lk : LET q == r.lk[k] IN
            (q.t >= 0 /\ q.h >= 0 /\ ~(q.h < Len(tp) /\ tp[q.h + 1].t <= q.t)) => q.raised = "ValueError">>,
     <<"stored-timestamp-equals-unhinted-query",
-        \A k \in DOMAIN r.obs : r.obs[k].q0r = "" /\ r.obs[k].us = r.obs[k].q0>>,
-    <<"stored-index-is-governing-index",
-        \A k \in DOMAIN r.obs : r.obs[k].idx # -1 => r.obs[k].idx + 1 = Governing(tp, r.obs[k].t)>>
+        \A k \in DOMAIN r.obs : r.obs[k].q0r = "" /\ r.obs[k].us = r.obs[k].q0>>
   >>)
+\* (The index an event keeps in its PRIVATE attribute _proximal_bpm_event_index is not part of C11 - the statement speaks of
+\*  the index the public query RETURNS.  A tree that stores nothing there, or always 0, is as good as the pinned one; what the
+\*  pinned tree stores is described by TrackBuild.tla / TempoMap.tla and compared as drift.  DESIGN 11.3, round 10.)
+C11StoredIndexDrift(r) ==
+  Cardinality({ k \in DOMAIN r.obs : r.obs[k].idx # -1 /\ r.obs[k].idx + 1 # Governing(r.tempo, r.obs[k].t) })
 
 (***************************** C15 *****************************************)
 \* r.tempo / r.tst (time-signature ticks) / r.res as WRITTEN, possibly corrupted; r.raised the parse
